@@ -34,7 +34,7 @@ std::string dimsToStr(const std::vector<size_t>& d) { std::ostringstream o; o <<
 static std::string upperS(std::string s) { for (size_t i = 0; i < s.size(); ++i) s[i] = (char)toupper((unsigned char)s[i]); return s; }
 
 Hist::Hist(const Opts& o_, long idx_, CaseLog& log_) : o(o_), idx(idx_), log(log_), rng(o_.seed, (uint64_t)idx_ * 7919 + fnv(o_.profile)),
-    wild(o_.wild), managedEdited(false), declaredByName(true), external(false), specialFloats(false), analogIncomplete(false), columnOverGaps(false), columnOverGapsReported(false), offSpec(false), namedChannels(false), nSaves(0) {
+    wild(o_.wild || (o_.geti("wildpct", 0) > 0 && (long)(Rng(o_.seed, (uint64_t)idx_ * 13 + 5).below(100)) < o_.geti("wildpct", 0))), managedEdited(false), declaredByName(true), external(false), specialFloats(false), analogIncomplete(false), columnOverGaps(false), columnOverGapsReported(false), pendingUnspecified(false), hadUnspecified(false), fileOffSpec(false), caseVariantNames(false), offSpec(false), namedChannels(false), nSaves(0) {
     char b[600]; snprintf(b, sizeof b, "%s/tmp_%ld", o.out.c_str(), idx); tmp = b; mkdir(tmp.c_str(), 0755);
 }
 
@@ -123,7 +123,7 @@ void Hist::checkC05(const Snap& s, const std::string& op) {
     // rate
     { double a = bitsf(s.h.rate), b = prate; if (!(std::fabs(a - b) <= 1e-4)) C05V("rate", "header rate=" << a << " POINT:RATE=" << b); }
     // label arrays
-    if (declaredByName && !external) {
+    if (declaredByName && !external && !hadUnspecified) {
         const char* pn[] = {"LABELS", "DESCRIPTIONS", "UNITS"};
         for (int i = 0; i < 3; ++i) { const SParam* q = s.param("POINT", pn[i]); size_t n = q ? (q->type == ezc3d::CHAR ? q->sv.size() : SIZE_MAX) : SIZE_MAX;
             if (n != (size_t)used) C05V(std::string("point_arrays/") + pn[i], "POINT:" << pn[i] << " has " << (long)n << " entries, POINT:USED=" << used); }
@@ -161,6 +161,17 @@ void Hist::afterMutator(const std::string& op, const Outcome& oc, bool isPublicM
             else log.viol("C10", "changed_after_refusal/" + op + "/" + oc.cls + "/" + where, all);
         } else if (isPublicMutator) bump("c10_unchanged_ok");
     } else {
+        if (pendingUnspecified) {
+            // An accepted call the documentation is silent on: the declared shape is no longer defined by declarations.  If every stored
+            // frame has the same shape afterwards, that shape is what the three views must agree on (judged, without the label arrays);
+            // if the frames now differ in shape there is no "shape of the data" and this history is not judged any further.
+            pendingUnspecified = false; fileOffSpec = true;     // what a FILE of this object means is not defined by the documentation (rates may contradict the stored sub-frames): C01/C03 not judged
+            bool uniform = true; const SFrame* ref = 0;
+            for (size_t f = 0; f < cur.frames.size() && uniform; ++f) { const SFrame& F = cur.frames[f]; if (F.empty()) continue;
+                for (size_t s = 1; s < F.subs.size(); ++s) if (F.subs[s].size() != F.subs[0].size()) uniform = false;
+                if (!ref) ref = &F; else if (F.pts.size() != ref->pts.size() || F.subs.size() != ref->subs.size() || (!F.subs.empty() && F.subs[0].size() != ref->subs[0].size())) uniform = false; }
+            if (!uniform || !ref) offSpec = true;
+        }
         checkC05(cur, op);
     }
     prev = cur;
